@@ -255,6 +255,48 @@ def agree_obligations(chk: Check, tb: dict) -> None:
                               f'fails on the regenerated tables ({rt_expr} = {rans[0]}, table_ok = {rans[1]}): injectivity of the '
                               'standard ASCII writer is no longer proved (collisions are searched per table below)',
                               dict(kind='obligation', obligation=rt_expr), found_input=False)
+    # further string tables that happen to satisfy the same side conditions (today: the 'text' dialect aliases of the
+    # ASCII tables): the generic theorems are instantiated for them too; tables that do not (multi-character symbols,
+    # non-empty subscript delimiters) stay with the correspondence-only collision search - not an alarm
+    if have_std() and all_ok:
+        others = [e for e in tb['strings'] if (e['notation'], e['format'], e['dialect']) not in
+                  (('polish', 'text', 'ascii'), ('standard', 'text', 'ascii'))]
+        try:
+            ex_ = ord(pl.Ref(tb['parse']['standard']).sym('System', 'Existence'))
+        except Exception:  # noqa: BLE001
+            ex_ = None
+        oexprs = []
+        for e in others:
+            if e['notation'] == 'polish':
+                oexprs.append(f'agree_b polish_table {tname(e)}')
+            else:
+                oexprs.append(f'table_ok standard_table && std_agree_b standard_table (patch_exist {tname(e)} (Some [{ex_}]%N)) std_opts'
+                              if ex_ is not None else 'false')
+        oans = [a.strip() == 'true' for a in pl.eval_bools(PID, header(), oexprs, name='StatusOther')] if oexprs else []
+        proved = ['polish/text/ascii'] + (['standard/text/ascii'] if STD_RT_APPLIES else [])
+        for e, ok, ex in zip(others, oans, oexprs):
+            tkey = f"{e['notation']}/{e['format']}/{e['dialect']}"
+            ok = ok and (e['notation'] == 'polish' or STD_RT_APPLIES)
+            chk.count('injectivity_by', ('proof:' if ok else 'correspondence-only:') + tkey)
+            if not ok:
+                continue
+            proved.append(tkey)
+            nm = tname(e)
+            if e['notation'] == 'polish':
+                ob.append(f'Lemma obl_agree_{nm} : {ex} = true.\nProof. vm_compute. reflexivity. Qed.\n'
+                          f'Theorem C12_injective_{nm} : forall s1 s2 w, roundtrippable s1 = true -> roundtrippable s2 = true ->\n'
+                          f'  write_polish {nm} s1 = Some w -> write_polish {nm} s2 = Some w -> s1 = s2.\n'
+                          f'Proof. exact (C12_write_polish_injective polish_table {nm} obl_agree_{nm}). Qed.\n')
+            else:
+                ob.append(f'Lemma obl_agree_{nm} : std_agree_b standard_table (patch_exist {nm} (Some [{ex_}]%N)) std_opts = true.\n'
+                          'Proof. vm_compute. reflexivity. Qed.\n'
+                          f'Theorem C12_injective_{nm} : forall OW s1 s2 w,\n'
+                          '  roundtrippable s1 = true -> negid_ok OW s1 = true -> no_exist s1 = true ->\n'
+                          '  roundtrippable s2 = true -> negid_ok OW s2 = true -> no_exist s2 = true ->\n'
+                          f'  write_stdo OW {nm} s1 = Some w -> write_stdo OW {nm} s2 = Some w -> s1 = s2.\n'
+                          f'Proof. intro OW. exact (C12_write_standard_injective_opts standard_table {nm} std_opts OW _ '
+                          f'obl_standard_table_ok obl_agree_{nm}). Qed.\n')
+        chk.notes['injectivity_proved_for_tables'] = proved
     write_if_changed(g / 'Obl.v', '\n'.join(ob))
     rc, out = coqc(g / 'Obl.v')
     if rc:
